@@ -18,7 +18,7 @@ RULE = ("random edit histories (5-30 operations) on one object of each of the te
 TIERS = {"quick": {"shards": 8, "cases": 3000}, "thorough": {"shards": 16, "cases": 40000}}
 FLOOR_BASE = {"quick": 450, "thorough": 15000}    # case counts the floors below were calibrated for; the launcher scales them
 TYPES = ["QUBO", "PUBO", "PCBO", "QUSO", "PUSO", "PCSO", "QUBOMatrix", "PUBOMatrix", "QUSOMatrix", "PUSOMatrix"]
-OPS = ["permute_mapping", "cancel_top", "set", "set0", "setdup", "iadd_item", "isub_item", "imul_item", "cancel", "iadd0", "iadd", "isub", "imul",
+OPS = ["setlong", "permute_mapping", "cancel_top", "set", "set0", "setdup", "iadd_item", "isub_item", "imul_item", "cancel", "iadd0", "iadd", "isub", "imul",
        "idiv", "ipow", "update", "clear", "refresh", "copy", "derive", "constraint", "observe", "setbad"]
 
 
@@ -29,7 +29,7 @@ def FLOORS(tier):
          "observe-with-ancillas": 60 if q else 2000, "op:construct-from-raw": 200 if q else 6000, "op:observe-after-cancel_top": 60 if q else 2000, "observe-stale-with-ancillas": 15 if q else 500, "op:derive-then-constraint": 10 if q else 300}
     f.update({"untouched-object-checks": 3000 if q else 10 ** 5, "sibling:shares-mapping-dict": 100, "sibling:source-of-copy": 300,
               "caller-dict-scribbled": 60, "update:same-class-model:into-empty": 20, "update:same-class-model": 60, "update:pairs": 60,
-              "update:other-class-model": 60})
+              "update:other-class-model": 60, "ipow:exponent>=4:model-with-ancillas": 2})
     for t in TYPES:
         f["type:" + t] = 150 if q else 5000
     for o in OPS:
@@ -198,6 +198,22 @@ def case(ctx, rng, idx):
                 k, v = rkey(op == "setdup"), rng.choice(gen.DYADIC)
                 desc += [k, v]
                 m[k] = v
+            elif op == "setlong":
+                # a long raw spelling of a short monomial (as produced by multiplying long keys): more than 8 entries, labels
+                # repeated; in a spin key a label that occurs an even number of times is not in the monomial at all
+                base = list(rkey()) or [labs[0]]
+                newl = rng.choice(labs) if not labelled else (("nl%d" % step) if rng.random() < 0.7 else rng.choice(labs))
+                k = base + [newl, newl] * rng.choice([1, 2])
+                while len(k) <= 8:
+                    x_ = rng.choice(labs)
+                    k += [x_, x_]
+                rng.shuffle(k)
+                k, v = tuple(k), rng.choice(gen.DYADIC)
+                desc += [k, v]
+                if rng.random() < 0.5:
+                    m[k] = v
+                else:
+                    m[k] += v
             elif op == "set0":
                 k = rkey(rng.random() < 0.2)
                 desc += [k, 0]
@@ -283,10 +299,16 @@ def case(ctx, rng, idx):
                 desc += [o]
                 m /= o
             elif op == "ipow":
-                if len(m) > 4:
+                if len(m) > (7 if pc else 4):
                     continue
-                desc += [2]
-                m **= 2
+                big_ = max((abs(v_) for v_ in m.values()), default=0)
+                if big_ > 1e40:
+                    continue
+                e_ = rng.choice([2, 3, 4, 5]) if (len(m) <= (7 if pc else 2) and big_ <= 16) else 2
+                if e_ >= 4:
+                    ctx.cat("ipow:exponent>=4" + (":model-with-ancillas" if pc and m.num_ancillas else ""))
+                desc += [e_]
+                m **= e_
             elif op == "update":
                 o = gen.rand_terms(rng, labs, maxd, lo=1, hi=3)
                 if rng.random() < 0.3:
